@@ -54,6 +54,27 @@ def run_digest(ctx, i, emit=None):
         return None, "bad json: %s" % ex
 
 
+def derived(kind, differs):
+    """same rule as harness/mon/c20 Derived(): only the most upstream differing kind of an input is reported"""
+    def up(*ks):
+        return any(k in differs for k in ks)
+    if kind == "plan.cmds":
+        return up("changes")
+    if kind == "plan.full":
+        return up("changes", "plan.cmds")
+    if kind.startswith("fmt."):
+        return up("changes", "plan.cmds", "plan.full")
+    if kind == "plan.sum":
+        return up("changes", "plan.cmds", "plan.full", "fmt.default")
+    if "." in kind:
+        p, rest = kind.split(".", 1)
+        if rest == "sum":
+            return up(p + ".files")
+        if rest in ("newhashfile", "sumfile", "validate"):
+            return up(p + ".files", p + ".sum")
+    return False
+
+
 def leg_proc(ctx, emit):
     docs = [None] * P
 
@@ -81,11 +102,14 @@ def leg_proc(ctx, emit):
     for name in names:
         dialect = name.split("/")[0]
         kinds = sorted(set().union(*[set(d["digests"][name]) for _, d in good]))
+        differs = {k for k in kinds if len({d["digests"][name].get(k) for _, d in good}) > 1}
         for k in kinds:
             vals = [d["digests"][name].get(k) for _, d in good]
             ctx.eval(vlib.digest(name, k, vals[0]), not k.startswith("error."))
             ctx.count("proc:kind:" + k)
-            if len(set(vals)) > 1:
+            if k in differs and derived(k, differs):
+                ctx.count("proc:derived-differences-not-reported-separately")
+            elif k in differs:
                 ctx.violation("process|%s|%s" % (dialect, k),
                               "%s: output %r has %d different digests in %d fresh processes of the same seeded input (pids %s)" % (
                                   name, k, len(set(vals)), len(good), sorted(pids)),
